@@ -36,7 +36,7 @@ def main():
         bad.append((s2, i + 1))
     text = "".join(json.dumps(s) + "\n" for s in sessions + [b[0] for b in bad])
     res = tlc.run(module="Trace_System", cfg="SPECIFICATION TraceSpec\nINVARIANT InvType\n", dirs=sc.DIRS,
-                  files={"trace.ndjson": text}, env={"TRACE_FILE": "trace.ndjson"}, timeout=900, coverage=True)
+                  files={"trace.ndjson": text}, env={"TRACE_FILE": "trace.ndjson"}, timeout=1800, coverage=True, heap="8g")
     tlc.require_ok(res, "Trace_System")
     v = {x["id"]: x for x in res.printed}
     good = collections.Counter(v[s["id"]]["verdict"] for s in sessions)
